@@ -614,6 +614,16 @@ func genC02(g *G) {
 func genC16(g *G) {
 	r := g.rng
 	genGopTs(g, g.scale(100, 3000))
+	// the input ends while a consumer still waits for a key frame and frames sit in the merge writer: the waiting consumer
+	// gets none of that tail; the next publisher's stream starts with its own headers and key frame
+	for _, ms := range []int{200, 8192, 0} {
+		for _, k := range []string{"r", "f", "w"} {
+			evs := []string{"P", "M:9:0:1700000000aabb", "M:8:0:af001210", "M:9:0:1701000000a1", "M:9:40:2701000000a2", "J:" + k + ":1", "M:9:80:2701000000a3", "M:8:90:af01b1",
+				"M:9:120:2701000000a4", "p", "P", "M:9:0:1700000000aabc", "M:9:0:1701000000c1", "M:9:40:2701000000c2", "J:" + k + ":2", "M:9:80:2701000000c3", "p"}
+			g.L("corpus-ends-while-waiting").run(fmt.Sprintf("grp.run rc=1,fc=1,rg=0,rk=0,fg=0,fk=0,ms=%d,rec=0 %s", ms, strings.Join(evs, ";")))
+			g.L("corpus-ends-while-waiting").run(fmt.Sprintf("grp.run rc=1,fc=1,rg=1,rk=0,fg=1,fk=0,ms=%d,rec=1 %s", ms, strings.Join(evs, ";")))
+		}
+	}
 	for i := 0; i < g.scale(300, 12000); i++ {
 		gen := &c01Gen{r: r}
 		cfg := fmt.Sprintf("rc=1,fc=1,rg=%d,rk=%d,fg=%d,fk=%d,ms=%d,rec=%d", r.Pick(0, 1, 2), r.Pick(0, 0, 2), r.Pick(0, 1, 2), r.Pick(0, 0, 2), r.Pick(0, 0, 200, 8192), r.Pick(0, 1))
